@@ -194,12 +194,9 @@ def classification_of(r):
     if r["exit"] != 0:
         return ("FAILED", r["exit"])
     try:
-        data = json.loads(r["stdout"][r["stdout"].index("\n{"):])
+        data = proc.json_document(r["stdout"])
     except Exception:
-        try:
-            data = json.loads(r["stdout"][r["stdout"].index("{"):])
-        except Exception:
-            return ("UNPARSEABLE", r["stdout"][-100:])
+        return ("UNPARSEABLE", r["stdout"][-100:])
     return tuple(sorted((m["name"], m["category"], m["subcategory"], tuple(sorted(m.get("tags", [])))) for m in data.get("merchants", [])))
 
 
